@@ -268,6 +268,20 @@ func init() {
 			}
 			return e.ops[i].Kind + " " + e.ops[i].Path
 		},
+		"verifFSOpThread": func(fr *Frame, a []Value) Value {
+			e := fr.it.env
+			i := int(fr.it.concInt(a[0], "verifFSOpThread"))
+			if i < 0 || i >= len(e.ops) {
+				return uint64(0)
+			}
+			return uint64(e.ops[i].Thr)
+		},
+		"verifThreadID": func(fr *Frame, a []Value) Value {
+			if fr.it.sched == nil || fr.it.sched.cur == nil {
+				return uint64(0)
+			}
+			return uint64(fr.it.sched.cur.id)
+		},
 		"verifLockHeld": func(fr *Frame, a []Value) Value {
 			e := fr.it.env
 			n, ok := e.nodes[clean(concStr(a[0], "verifLockHeld"))]
